@@ -46,6 +46,8 @@ type Result struct {
 	PostHdrCRC  uint16 `json:"post_hdr_crc,omitempty"`
 	PostCRC     uint16 `json:"post_crc,omitempty"`
 	BuildErr    string `json:"build_err,omitempty"`
+	Repeats     int    `json:"repeats,omitempty"`
+	RepeatDiff  int    `json:"repeat_diff,omitempty"` // index of the first repeated Encode whose bytes differ from the first (0 = none)
 
 	file  *fit.File
 	files []*fit.File
@@ -237,6 +239,10 @@ func runTask(t *Task, media map[string][]byte, sched Yielder, prior map[int]*Res
 			err := fit.Encode(w, f, archOf(t.Arch))
 			setErr(err)
 			res.Outs = append(res.Outs, w.buf)
+			res.Repeats = i + 1
+			if i > 0 && res.RepeatDiff == 0 && string(w.buf) != string(res.Outs[0]) {
+				res.RepeatDiff = i
+			}
 			if i == 0 {
 				res.Out = w.buf
 				res.WriteSz = w.sizes
